@@ -1433,17 +1433,18 @@ def shrink(x, sig, drv, tmpdir, budget=400):
             pass
     # histories: drop steps (from the front) while the signature reproduces
     if best.get("history"):
-        k = 0
-        while k < len(best["history"]) and n < budget:
-            y = dict(best, history=best["history"][:k] + best["history"][k + 1:])
-            n += 1
-            try:
-                if fails(y):
-                    best = y
-                    continue
-            except Exception:
-                pass
-            k += 1
+        for width in (2, 1):          # a mutation and its mirror on the other side go together
+            k = 0
+            while k + width <= len(best["history"]) and n < budget:
+                y = dict(best, history=best["history"][:k] + best["history"][k + width:])
+                n += 1
+                try:
+                    if fails(y):
+                        best = y
+                        continue
+                except Exception:
+                    pass
+                k += 1
         return best
     while changed and n < budget:
         changed = False
